@@ -15,12 +15,40 @@ func tokenString(s string) string {
 	}
 	lastChar := len(s) -1
 	if s[0] == char_doublequote && s[lastChar] == char_doublequote {
-		return s[1:lastChar]
+		return unescape(s[1:lastChar])
 	}
 	if s[0] == char_singlequote && s[lastChar] == char_singlequote {
 		return s[1:lastChar]
 	}
 	return s
+}
+
+// unescape double quoted string according to RFC7950 Sec 6.1.3
+func unescape(s string) string {
+	if !strings.ContainsRune(s, char_backslash) {
+		return s
+	}
+	var sb strings.Builder
+	for i := 0; i < len(s); i++ {
+		if s[i] == char_backslash && i+1 < len(s) {
+			switch s[i+1] {
+			case 'n':
+				sb.WriteByte('\n')
+				i++
+				continue
+			case 't':
+				sb.WriteByte('\t')
+				i++
+				continue
+			case '"', '\\':
+				sb.WriteByte(s[i+1])
+				i++
+				continue
+			}
+		}
+		sb.WriteByte(s[i])
+	}
+	return sb.String()
 }
 
 // Lex implements goyacc interface
